@@ -33,5 +33,11 @@ Proof.
 Qed.
 Print Assumptions C02_elementary.
 
+(* N-D: an operator applied along one axis of a row-major (pre, n, post) tensor stays linear *)
+Theorem C02_along_axis : forall (R : StarRing) pre post (A : linop R),
+  (0 < post)%nat -> (0 < dom A)%nat -> (0 < ran A)%nat -> wf A -> wf (along pre post A).
+Proof. exact along_wf. Qed.
+Print Assumptions C02_along_axis.
+
 Example C02_example : wf (den (TSum (Leaf (zeropad_op (R:=GRing) 3 3)) (TProdR (R:=GRing) (fun _ => ((0, 1)%Z : G)) (Leaf (findiff_op (R:=GRing) true 3 ((0,0)%Z : G) ((-1,0)%Z : G) ((1,0)%Z : G)))))).
 Proof. apply closure_wf; cbn; repeat split; first [apply zeropad_wf|apply findiff_wf]. Qed.
